@@ -24,6 +24,7 @@ func init() {
 		Level: "exploration",
 		Rule: "(a) generated modules (mgen): every instruction result, parameter and phi is used once more at the type the generator's own typing model predicts, and llvm-as (verifier on) accepts the module, so LLVM agrees with the prediction; the parser's Type() of every such value must print exactly as predicted, the type recomputed by the IR library after clearing the cached type must be Equal and print alike, and the same must hold after parse(print(m)). " +
 			"(b) constant-expression grid: every constant-expression kind the IR has (add..xor, casts, getelementptr, icmp, fcmp, select, fneg, extractelement, insertelement, shufflevector) over scalar, fixed-vector and scalable-vector operand shapes as initializer of a global of the predicted type. " +
+			"(c) corpus modules: name honesty of result types (a result type carries a type name only if the written type or an operand carries it). (d) address spaces edited after the type was asked for (alloca, global, function; built and parsed): Type() must follow the edit. " +
 			"non-trivial = a value whose type is not a plain scalar integer, or any constant expression; distinct by (kind, operand type, predicted type)",
 		Gen:           genC06,
 		MinNontrivial: 500,
